@@ -124,6 +124,37 @@ Theorem C12_call_completes :
 Proof. exact call_completes. Qed.
 Print Assumptions C12_call_completes.
 
+(** The silence rule (reader: reconnectTimeout without a packet).  Time is the label
+    LTick k (one second for connection k); ticks_since reads the seconds since the
+    reader's last packet off the trace.  Wherever a trace contains the silence step
+    of connection k, a full period has passed since that reader received its last
+    packet of ANY kind (answer, pong, auth nonce, junk) or was started: a connection
+    that receives some packet at least once per period - e.g. a pong for each 3 s
+    ping - is never dropped by the silence rule, so a delayed answer still finds it. *)
+Theorem C12_silence_only_after_quiet_period :
+  forall nconn ids l1 l2 k s,
+    exec nconn ids init_state (l1 ++ LSilence k :: l2) = Some s ->
+    silence_ticks <= ticks_since k l1 0.
+Proof. exact silence_only_after_quiet_period. Qed.
+Print Assumptions C12_silence_only_after_quiet_period.
+
+Theorem C12_any_packet_restarts_silence_timer :
+  forall nconn ids s k s',
+    step nconn ids s (LDeliver k) = Some s' -> since s' k = 0 /\ step nconn ids s' (LSilence k) = None.
+Proof. exact any_packet_restarts_silence_timer. Qed.
+
+(** non-vacuity: 9 quiet seconds, a pong, 9 more seconds: silence is not enabled;
+    one more quiet second after ten: it is *)
+Example C12_silence_example :
+  let ids := fun i => (100 + N.of_nat i)%N in
+  let t9 := repeat (LTick 0) 9 in
+  (exists s, exec 1 ids init_state (t9 ++ [LEmit 0 PPong; LDeliver 0] ++ t9) = Some s /\
+             step 1 ids s (LSilence 0) = None) /\
+  (exists s, exec 1 ids init_state (t9 ++ [LTick 0; LSilence 0]) = Some s /\ rq s 0 = 1).
+Proof.
+  cbv zeta. split; eexists; (split; [vm_compute; reflexivity|]); vm_compute; reflexivity.
+Qed.
+
 (** PARTIAL (liveness): after a drop the path ping failure -> reconnect -> done is
     enabled and re-establishes the connection; that it is taken within a bounded
     time is a fairness / wall-clock fact, not proved. *)
